@@ -68,6 +68,9 @@ def items_of(crate_facts):
     for b in crate_facts["bodies"]:
         if b.get("kind") in ("Fn", "AssocFn") and not b.get("exp") and b.get("sp"):
             fns[b["def_path"]] = {"file": b["sp"][0], "line": b["sp"][1], "sig": _sig(b)}
+        elif (b.get("kind") or "").startswith(("Const", "AssocConst", "Static")) and not b.get("exp") and b.get("sp") and "{" not in b["def_path"].rsplit("::", 1)[-1]:
+            # named constants take part in the alignment like functions (signature = their type)
+            fns[b["def_path"]] = {"file": b["sp"][0], "line": b["sp"][1], "sig": ["const", _ty(b.get("ret_ty"))]}
     adts = {}
     for a in crate_facts["adts"]:
         if not a.get("sp"):
@@ -98,6 +101,23 @@ def align_items(crate_facts, ref):
                  and [(x[1]) for x in cur["adts"][n]["variants"]] == shape]
         back = [w for w in van if ref["adts"][w]["file"] == rv["file"] and _parent(w) == _parent(v) and ref["adts"][w]["kind"] == rv["kind"]
                 and [(x[1]) for x in ref["adts"][w]["variants"]] == shape]
+        if len(cands) == 1 and len(back) == 1:
+            n = cands[0]
+            done[n] = v
+            short_n, short_v = n[len("crate::"):], v[len("crate::"):]
+            repl.append((re.compile(r"(?<![\w:])(crate::)?%s(?![\w])" % re.escape(short_n)), lambda m, sv=short_v: (m.group(1) or "") + sv))
+    # a type that was moved keeps its name and shape (module paths inside the field types are ignored: the type may mention itself)
+    def _leafy(t):
+        return re.sub(r"(?:\w+::)+", "", t)
+    for v in van:
+        if v in done.values():
+            continue
+        rv = ref["adts"][v]
+        shape = [(x[0], [_leafy(t) for t in x[1]]) for x in rv["variants"]]
+        leaf = v.rsplit("::", 1)[-1]
+        cands = [n for n in new if n not in done and n.rsplit("::", 1)[-1] == leaf and cur["adts"][n]["kind"] == rv["kind"]
+                 and [(x[0], [_leafy(t) for t in x[1]]) for x in cur["adts"][n]["variants"]] == shape]
+        back = [w for w in van if w not in done.values() and w.rsplit("::", 1)[-1] == leaf]
         if len(cands) == 1 and len(back) == 1:
             n = cands[0]
             done[n] = v
@@ -137,6 +157,7 @@ def align_items(crate_facts, ref):
     # functions
     van = [p for p in ref.get("fns", {}) if p not in cur["fns"]]
     new = [p for p in cur["fns"] if p not in ref.get("fns", {})]
+    paired_new = set()
     for v in van:
         rv = ref["fns"][v]
         cands = [n for n in new if cur["fns"][n]["file"] == rv["file"] and _parent(n) == _parent(v) and cur["fns"][n]["sig"] == rv["sig"]]
@@ -144,6 +165,23 @@ def align_items(crate_facts, ref):
         if len(cands) == 1 and len(back) == 1:
             n = cands[0]
             done[n] = v
+            paired_new.add(n)
+            repl.append((re.compile(r"(?<![\w])%s(?![\w])" % re.escape(n)), v))
+            repl.append((re.compile(r"(?<![\w:])%s(?![\w])" % re.escape(n[len("crate::"):])), v[len("crate::"):]))
+    # a function that was *moved* (another module / file, or free function <-> associated function) keeps its name and
+    # signature: paired when that (name, signature) is unique among the vanished and among the new functions of the crate
+    def _leaf(p_):
+        return p_.rsplit("::", 1)[-1]
+    for v in van:
+        if v in done.values():
+            continue
+        rv = ref["fns"][v]
+        cands = [n for n in new if n not in paired_new and _leaf(n) == _leaf(v) and cur["fns"][n]["sig"] == rv["sig"]]
+        back = [w for w in van if w not in done.values() and _leaf(w) == _leaf(v) and ref["fns"][w]["sig"] == rv["sig"]]
+        if len(cands) == 1 and len(back) == 1:
+            n = cands[0]
+            done[n] = v
+            paired_new.add(n)
             repl.append((re.compile(r"(?<![\w])%s(?![\w])" % re.escape(n)), v))
             repl.append((re.compile(r"(?<![\w:])%s(?![\w])" % re.escape(n[len("crate::"):])), v[len("crate::"):]))
     if repl:
